@@ -230,6 +230,11 @@ func (e *Engine) ensureInit(r *Run, pkg *ssa.Package) {
 		return
 	}
 	e.inited[pkg] = true
+	if pp := pkg.Pkg.Path(); strings.HasPrefix(pp, "deps.dev/api/") || strings.HasPrefix(pp, "google.golang.org/") {
+		// generated protobuf bindings: their initialisers build descriptors by reflection and are
+		// not needed to use the message structs as plain data
+		return
+	}
 	initFn := pkg.Func("init")
 	if initFn == nil || len(initFn.Blocks) == 0 {
 		return
